@@ -103,14 +103,23 @@ def stage(o):
 def oracle(scen, out):
     """C07 on what the implementation did: list of violated clauses (empty = fine)"""
     lay = scen.get("layouts") or {}
-    # (placeholder scenarios also log the substituted argument of a command as "=<value>": not an inspection id)
-    log = [x for x in out.get("log", []) if not x.startswith("=")]
     bad = []
     owner, behave = {}, {}
     for path, info in lay.items():
         for i in info["insp"]:
             owner[i] = path
             behave[i] = info["behave"].get(i, "ok")
+    # (placeholder scenarios also log the substituted argument of a command as "=<value>": not an inspection id; the log is
+    # read word by word, so a value that contains blanks continues in the following words, up to the next inspection id)
+    log, in_arg = [], False
+    for x in out.get("log", []):
+        if x.startswith("="):
+            in_arg = True
+        elif x in owner:
+            in_arg = False
+            log.append(x)
+        elif not in_arg:
+            log.append(x)
     if len(set(log)) != len(log):
         bad.append("an inspection ran more than once: %r" % log)
     unknown = [x for x in log if x not in owner]
